@@ -32,7 +32,7 @@ def divOp (kind : String) (n : Nat) (qs gs : List Nat) (level nb : Nat) (p0 : Li
   match kind with
   | "floor" => pair (Scaling.divFloor qs level p0) p0
   | "floorntt" => pair (Scaling.divFloorNTT T qs level p0) p0
-  | "round" => let r := Scaling.divRound qs level p0; pair r.2 r.1
+  | "round" => pair (Scaling.divRound qs level p0) p0
   | "roundntt" => pair (Scaling.divRoundNTT T qs level p0) p0
   | "floormany" => match Scaling.divFloorMany qs level nb p0 with
       | some p1 => pair p1 p0
@@ -41,7 +41,7 @@ def divOp (kind : String) (n : Nat) (qs gs : List Nat) (level nb : Nat) (p0 : Li
       | some p1 => pair p1 p0
       | none => "panic"
   | "roundmany" => match Scaling.divRoundMany qs level nb p0 with
-      | some r => pair r.2 r.1
+      | some p1 => pair p1 p0
       | none => "panic"
   | "roundmanyntt" => match Scaling.divRoundManyNTT T qs level nb p0 with
       | some p1 => pair p1 p0
